@@ -844,13 +844,39 @@ impl World {
                 self.do_get_failures(&opdesc);
             }
             Op::Balance { c } => {
-                let _ = block_on(self.svc.balance_masters(cluster_name(*c)));
+                let before = self.store();
+                let r = block_on(self.svc.balance_masters(cluster_name(*c)));
+                // C06: rebalancing never hands a master (back) to a proxy that is marked failed or
+                // under failure report and has not been replaced
+                if r.is_ok() && self.prop == "C06" {
+                    let after = self.store();
+                    let name = cluster_name(*c);
+                    if let (Some(bv), Some(av)) = (before.get_cluster_by_name(&name, 0), after.get_cluster_by_name(&name, 0)) {
+                        let masters = |v: &undermoon::common::cluster::Cluster, a: &str| v.get_nodes().iter().filter(|n| n.get_proxy_address() == a && n.get_role() == Role::Master).count();
+                        let mut addrs: Vec<String> = bv.get_nodes().iter().map(|n| n.get_proxy_address().to_string()).collect();
+                        addrs.sort();
+                        addrs.dedup();
+                        for a in addrs {
+                            if before.failed_proxies.contains(&a) || before.failures.contains_key(&a) {
+                                self.rec.probe("balance_with_failed_or_reported_proxy");
+                                let (mb, ma) = (masters(&bv, &a), masters(&av, &a));
+                                if ma > mb {
+                                    self.viol("C06", "rebalance-gave-master-to-failed-proxy", format!("{}: proxy {} (failed mark: {}, under failure report: {}) had {} master node(s) before the rebalance and {} after it", opdesc, a, before.failed_proxies.contains(&a), before.failures.contains_key(&a), mb, ma));
+                                }
+                            }
+                        }
+                    }
+                }
             }
             Op::Config { c, k, v } => {
                 let keys = ["compression_strategy", "migration_scan_count", "migration_max_blocking_time", "migration_scan_interval", "bogus_key"];
                 let vals = ["disabled", "set_get_only", "allow_all", "16", "1", "0", "77", "xx"];
+                // 1-3 fields per request (a refused request must not apply its valid fields)
                 let mut m = std::collections::HashMap::new();
-                m.insert(keys[*k as usize % keys.len()].to_string(), vals[*v as usize % vals.len()].to_string());
+                let n_fields = 1 + (*k as usize / 5) % 3;
+                for i in 0..n_fields {
+                    m.insert(keys[(*k as usize + i * 2) % keys.len()].to_string(), vals[(*v as usize + i * 3) % vals.len()].to_string());
+                }
                 let before = self.store();
                 let mig = stored_migrating(&before, &cluster_name(*c));
                 let r = block_on(self.svc.change_config(cluster_name(*c), m));
@@ -1388,7 +1414,7 @@ fn gen_history(rng: &mut Rng, cfg: &Cfg, n_ops: usize) -> Vec<Op> {
             79..=84 => Op::Report { pick: rng.next(), r: rng.below(5) as u8, unknown: rng.chance(1, 10) },
             85..=87 => Op::GetFailures,
             88..=91 => Op::Balance { c },
-            92..=95 => Op::Config { c, k: rng.below(5) as u8, v: rng.below(8) as u8 },
+            92..=95 => Op::Config { c, k: rng.below(15) as u8, v: rng.below(8) as u8 },
             96 => Op::Bump { delta: rng.range(0, 5) },
             _ => Op::Clock { secs: *rng.pick(&[1i64, 2, 3, 30, 59, 60, 61, 120]) },
         };
